@@ -2,6 +2,7 @@ package server
 
 import (
 	"context"
+	"fmt"
 
 	api "github.com/osrg/gobgp/v4/api"
 	"github.com/osrg/gobgp/v4/internal/pkg/table"
@@ -57,4 +58,21 @@ func simSetPolicies(w *simWorld, imp, exp int) {
 		req.Assignments = append(req.Assignments, as)
 	}
 	w.must(w.s.SetPolicies(context.Background(), req))
+	// SetPolicies replaces the policies and defined sets but keeps the assignments that existed
+	// (the request's assignments are not read): attach them explicitly, and make sure they are there
+	for _, as := range req.Assignments {
+		w.must(w.s.SetPolicyAssignment(context.Background(), &api.SetPolicyAssignmentRequest{Assignment: as}))
+	}
+	for _, d := range []struct {
+		k   int
+		dir table.PolicyDirection
+	}{{imp, table.POLICY_DIRECTION_IMPORT}, {exp, table.POLICY_DIRECTION_EXPORT}} {
+		want := 1
+		if d.k == 0 {
+			want = 0
+		}
+		if _, pl, err := w.s.policy.GetPolicyAssignment(table.GLOBAL_RIB_NAME, d.dir); err != nil || len(pl) != want {
+			panic(fmt.Sprintf("sim: policy assignment not in place (direction %v: %d policies, want %d, err %v)", d.dir, len(pl), want, err))
+		}
+	}
 }
